@@ -104,10 +104,21 @@ def prog_unique_permutation(kit, actor, doc, elem, cfg):
     rng.shuffle(perm)
     kit.w.count('c12.unique_words')
     for i, x in enumerate(perm):
-        yield {'op': 'ADD', 'a': actor, 'p': [doc], 'c': kit.childspec(x),
+        yield {'op': 'ADD', 'a': actor, 'p': [doc], 'c': kit.childspec(x, opaque=True),
                'c12': {'arr': arr, 'last': i == len(perm) - 1}}
-    if rng.random() < 0.5:
-        yield {'op': 'TO_STRING', 'a': actor, 'p': [doc], 'ic': False}
+    # the collection is complete and has one valid arrangement: it must serialise in it, with and without
+    # intelligent choice (required attributes are supplied first)
+    root = kit.w.docs.get(doc)
+    if root is not None and sorted(c.name for c in root.children) == sorted(arr):
+        for a, d in spec.attributes_of_element(elem).items():
+            if d['required'] and a not in root.attrs and gen._attr_usable(a):
+                v, _ = spec.exemplars(d['type'])
+                if v:
+                    yield {'op': 'ATTR_SET', 'a': actor, 'p': [doc], 'name': spec.py_attr_name(a), 'value': v[0]}
+        usable = all((not d['required']) or a in root.attrs for a, d in spec.attributes_of_element(elem).items())
+        first_ic = rng.random() < 0.5
+        for ic in ([True, False] if first_ic else [False, True]):
+            yield {'op': 'TO_STRING', 'a': actor, 'p': [doc], 'ic': ic, 'c12ser': {'arr': arr, 'usable': usable}}
 
 
 def _brief(cfg):
@@ -876,6 +887,23 @@ def wl_C18(rng, w, cfg, index):
         root = w.docs.get('d0')
         if root is None:
             return
+        if root_checked:
+            # checked root -> unchecked child (with a content model) -> checked grandchildren
+            withmodel = [x for x in kit.compatible(root, model.alpha) if spec.model_for_element(x) is not None]
+            for x in rng.sample(withmodel, min(len(withmodel), 2)):
+                yield {'op': 'ADD', 'a': 0, 'p': ['d0'], 'c': {'name': x, 'value': None, 'attrs': {}, 'xsd_check': False}}
+            # ... and under them checked elements that are still incomplete (their type requires children)
+            needy = [e for e in spec.ELEMENT_CONTENT_ELEMENTS if spec.model_for_element(e).missing([])]
+            for i, c in enumerate(root.children):
+                if not c.xsd_check and rng.random() < 0.8:
+                    g = rng.choice(needy)
+                    attrs = {}
+                    for a, d in spec.attributes_of_element(g).items():
+                        if d['required'] and gen._attr_usable(a):
+                            v, _ = spec.exemplars(d['type'])
+                            if v:
+                                attrs[spec.py_attr_name(a)] = v[0]
+                    yield {'op': 'ADD', 'a': 0, 'p': ['d0', i], 'c': {'name': g, 'value': None, 'attrs': attrs, 'xsd_check': True, 'kids': []}}
         for _ in range(rng.randint(3, 12)):
             nodes = list(root.walk())
             unchecked = [n for n in nodes if not n.xsd_check and spec.type_kind(spec.ELEM_TYPE[n.name]) != 'simple']
@@ -930,6 +958,10 @@ def wl_C18(rng, w, cfg, index):
                        'c': kit.childspec(rng.choice(spec.ALL_ELEMENTS), opaque=True)}
             else:
                 yield {'op': 'TO_STRING', 'a': 0, 'p': p, 'ic': False}
+        if root_checked:
+            # make the checked root itself complete (the macro stops at unchecked elements), so that what the final
+            # serialisation says depends on the checked elements *below* the unchecked ones only
+            yield from gen.complete(kit, 0, ['d0'], root)
         yield {'op': 'TO_STRING', 'a': 0, 'p': ['d0'], 'ic': False}
         if root.name == 'score-partwise':
             yield {'op': 'WRITE', 'a': 0, 'doc': 'd0', 'path': 'u.xml', 'ic': False}
@@ -1020,6 +1052,22 @@ def wl_C17(rng, w, cfg, index):
                     yield case('break-attr', [{'op': 'ATTR_SET', 'a': 0, 'p': path, 'name': spec.py_attr_name(a), 'value': None},
                                               dict(W)], enc=rng.choice(encs) if rng.random() < 0.3 else None)
                     break
+        # 2b. a node is broken, serialised on its own (refused), repaired with the very same child, then the whole
+        #     score is written: the file must hold the repaired document
+        broke = 0
+        for path, nd in rng.sample(nodes, min(len(nodes), 6)):
+            m = spec.model_for_element(nd.name)
+            if m is None or not nd.xsd_check or not nd.children or path == ['d0']:
+                continue
+            i = rng.randrange(len(nd.children))
+            yield case('break-repair', [{'op': 'REMOVE', 'a': 0, 'p': path, 'i': i},
+                                        {'op': 'TO_STRING', 'a': 0, 'p': path, 'ic': False},
+                                        {'op': 'ADD', 'a': 0, 'p': path, 'reuse': 0, 'reuse_doc': 'd0', 'c': {'name': nd.children[i].name}},
+                                        {'op': 'TO_STRING', 'a': 0, 'p': ['d0'], 'ic': False, 'skip_if_cached': True},
+                                        dict(W)][0:3] + [dict(W)], rng.choice(priors))
+            broke += 1
+            if broke >= 2:
+                break
         # 3. asynchronous exception at the k-th library function entry during write()
         for k in sorted({1, 2, 3, 5, 8} | {rng.randint(1, 4000) for _ in range(cfg.get('async_points', 6))}):
             yield case('async@%d' % k, [{'op': 'FAULT', 'kind': 'async.exc', 'params': {'k': k}}, dict(W)])
